@@ -83,6 +83,20 @@ CHECKS = [
         "text": "Decides the structural sources of per-run growth: the metaclass inserts component classes into a weak container and the registry getter returns a snapshot; the module- and class-level containers that any function grows are exactly the eleven frozen registries whose insertion is keyed by a configuration-determined name or guarded by membership; no weakref.finalize / atexit / unbounded memo is fed at run time; orchestrators, Pipeline, transports, drivers, executors and emitters grow no instance container per run beyond two frozen, released ones; every transport.publish has a subscriber pattern that can consume it. One site (local orchestrator publishing node outputs nobody consumes) is recorded as known finding F-C18b.",
         "note": "Assumes the garbage collector reclaims unreferenced classes/objects and that registration-time names are configuration-determined. Measured gc counts are not decided.",
     },
+    {
+        "property_id": "C04",
+        "design_ref": "DESIGN.md section 3, C04",
+        "technique": "static analysis: purity scan of the identity slice (ambient-source table), key-order provenance of everything hashed (sort_keys / sorted-key normalisers / list order kinds), ownership (freshness-tree) analysis against in-place mutation of hashed inputs, who-may-hash and same-function agreement between inspection and run time, C12 normaliser rules",
+        "text": "Decides: no function of the identity slice (24 functions) reads a clock, random source, process/host/environment value, object address or salted hash, and no volatile per-run value is hashed into an id; every json.dumps feeding a hash sorts keys or receives a sorted-key normal form, no hashed list inherits mapping/set order, config pairs and required keys are sorted; execute()/inspection never mutate an object reachable from a caller-owned identity input (copies are fresh down to the mutated level); inspection and run time call the same id functions on canonical nodes enriched with the same metadata, each id prefix is produced in one function; the +/* normaliser satisfies the C12 rules.",
+        "note": "YAML-text level equivalences are yaml.safe_load's (trusted). Cross-process equality is decided only through the absence of ambient and hash-seed dependent constructs.",
+    },
+    {
+        "property_id": "C05",
+        "design_ref": "DESIGN.md section 3, C05",
+        "technique": "static analysis: field-sensitive coverage of hash inputs (which configuration fields reach which id), def-use of processor_ref, agreement of the metadata object used on both paths, dataclass-field vs signature-key comparison",
+        "text": "Decides sensitivity as reachability: the canonical node carries role, processor_ref, full-depth params, ports and the enumerate() declaration index and is hashed whole into the node uuid; the node semantic id hashes the whole sweep metadata minus exactly the UI-only keys; the pipeline semantic id covers node uuid and node semantic id of every node in order; config id covers every pair; pipeline id the whole graph; the sweep metadata carries element_ref, expression signatures, variable domains (every RangeSpec field; count and full digest of sequences; from_context key), mode, broadcast, collection, dependencies in all three generated variants; string processor references are hashed as written; the same metadata enriches canonical nodes on both paths.",
+        "note": "Assumes sha256/uuid5/json.dumps(sort_keys) injectivity. Equality of expression values is C12's.",
+    },
 ]
 _TODO = "check not built yet in this session (planned: DESIGN.md section 3); not claimed until its rules run clean and fire on their variants"
 NOT_APPLICABLE = [
